@@ -270,6 +270,8 @@ def windows_spec(draw):
         'forms': forms,
         'open_first': open_first,
         'open_last': open_last,
+        # which feed serves the windows: the bare SQLAlchemy reader, or forml's stock alchemy feed with its result cache
+        'stock': draw(st.integers(0, 2)) == 0,
     }
 
 
@@ -353,6 +355,8 @@ def check_windows(ctx, spec):
         classes.append('open-last')
     if spec['labels']:
         classes.append('labels')
+    if spec.get('stock'):
+        classes.append('feed:stock-alchemy')
     if spec.get('where_val') is not None:
         classes.append('where')
     if shared:
@@ -365,6 +369,10 @@ def check_windows(ctx, spec):
     _clear_caches()
     db = database()
     db.load(kind, rows)
+    feed = db.feed
+    if spec.get('stock'):
+        exec10.StockFeed.fresh_results(os.path.join(ctx.scratch, f'c10-results-{os.getpid()}'))
+        feed = db.stock
     try:
         source = exec10.source(kind, once=once_arg(once), labels=spec['labels'], where_val=spec.get('where_val'))
     except Exception as exc:  # pylint: disable=broad-except
@@ -384,7 +392,7 @@ def check_windows(ctx, spec):
         cast = any(b is not None and f != 'native' for f, b in ((lform, lower), (uform, upper)))
         wtags = tags + (['cast-form'] if cast else [])  # the path and the exact form are in the detail, not in the key
         try:
-            got = exec10.run_drivers(db.feed, source.extract, largs, uargs, kind)
+            got = exec10.run_drivers(feed, source.extract, largs, uargs, kind)
         except Exception as exc:  # pylint: disable=broad-except
             ctx.fail_exc(spec, 'window-raises', exc, wtags)
             return
